@@ -813,14 +813,14 @@ class OptimizationProblem(DataStoreAccessor, metaclass=ABCMeta):
 
         if isinstance(fs, np.ndarray) and fs.ndim == 2:
             # 2-D array of values. Interpolate each column separately.
-            if len(t) == len(ts) and np.all(t == ts):
+            if hasattr(t, "__iter__") and len(t) == len(ts) and np.all(t == ts):
                 # Early termination; nothing to interpolate
                 return fs.copy()
 
             fs_int = [
                 self.interpolate(t, ts, fs[:, i], f_left, f_right, mode) for i in range(fs.shape[1])
             ]
-            return np.stack(fs_int, axis=1)
+            return np.stack(fs_int, axis=-1)
         elif hasattr(t, "__iter__"):
             if len(t) == len(ts) and np.all(t == ts):
                 # Early termination; nothing to interpolate
